@@ -172,13 +172,30 @@ def theorems_of(module):
 
 
 def aux_theorems_of(module):
-    """Every theorem of a helper module listed in `modules` that has no property theorems of its own
-    (the translator agreement lemmas, H3.Lemmas.GenAgree*): audited for axioms, not counted as obligations."""
+    """Every (non-private) theorem of a helper module listed in `modules` that has no property theorems of its
+    own (agreement lemmas, lemma files a property names): audited for axioms, not counted as obligations.
+    Names are qualified by the namespaces open at the point of declaration."""
     path = os.path.join(LEAN, *module.split(".")) + ".lean"
     code = strip_comments(open(path).read())
-    ns = re.search(r"^namespace\s+(\S+)", code, re.M)
-    prefix = ns.group(1) + "." if ns else ""
-    return [prefix + m for m in re.findall(r"^theorem\s+([A-Za-z_][\w.']*)", code, re.M)]
+    stack = []
+    names = []
+    for line in code.split("\n"):
+        m = re.match(r"^namespace\s+(\S+)", line)
+        if m:
+            stack.append(m.group(1))
+            continue
+        m = re.match(r"^end\s+(\S+)", line)
+        if m and stack and stack[-1] == m.group(1):
+            stack.pop()
+            continue
+        m = re.match(r"^(?:@\[[^\]]*\]\s*)*(?:protected\s+)?theorem\s+([^\s:({\[]+)", line)
+        if m:
+            n = m.group(1)
+            if n.startswith("_root_."):
+                names.append(n[len("_root_."):])
+            else:
+                names.append(".".join(stack + [n]))
+    return names
 
 
 def print_axioms(module, names):
